@@ -428,8 +428,8 @@ func discTableProp(c *pbt.C) {
 	})
 
 	// ---- the remote nodes and their policies (all draws happen here)
-	nh := c.Int("honest", 1, 3)
-	nx := c.Int("hostile", 1, 5)
+	nh := c.Int("honest", 1, 2)
+	nx := c.Int("hostile", 1, 3)
 	mk := func(i int, name string) *rnode {
 		k := discKey(3000 + int(seed%1000)*16 + i)
 		r := &rnode{name: name, key: k, id: idOf(k), addr: &net.UDPAddr{IP: net.IP{198, 51, 100, byte(10 + i)}, Port: 30000 + i}}
@@ -457,7 +457,7 @@ func discTableProp(c *pbt.C) {
 	var extras []*rnode
 	for i := 0; i < 3; i++ {
 		r := mk(20+i, fmt.Sprintf("extra-%d", i))
-		r.pingPol, r.pingBack, r.findPol = "pong", c.Bool(r.name+".pingBack"), "silent"
+		r.pingPol, r.pingBack, r.findPol = "pong", true, "honest"
 		extras = append(extras, r)
 	}
 	for _, r := range honest { // honest nodes know each other and the extras
@@ -476,7 +476,7 @@ func discTableProp(c *pbt.C) {
 	invalidAddrs := map[string]bool{}
 	ruleDiffers := ""
 	for _, r := range hostile {
-		n := []int{0, 1, 3, 8, 14, 20}[c.Pick(r.name+".entries", 6)]
+		n := []int{1, 3, 8, 14, 0}[c.Pick(r.name+".entries", 5)]
 		for j := 0; j < n; j++ {
 			kind := nbrKinds[c.Pick(fmt.Sprintf("%s.e%d", r.name, j%6), len(nbrKinds))]
 			c.Class("entry/" + kind)
